@@ -205,7 +205,7 @@ Definition obj_call (w : world) (copy : list (string * Z)) (cn : conn) (clid : Z
 Definition iface_of (w : world) (decl : list (Z * list string)) (o : Z) : option (list string) :=
   match o_iface (w_obj w o) with
   | Some l => Some l
-  | None => match interface_lookup with PerInstance => zget o decl end
+  | None => match interface_lookup with PerInstance => zget o decl | PerClass => None end
   end.
 Definition eff (w : world) (decl : list (Z * list string)) : world :=
   {| w_obj := fun o => {| o_kind := o_kind (w_obj w o); o_attrs := o_attrs (w_obj w o); o_iface := iface_of w decl o |} |}.
